@@ -138,6 +138,8 @@ def parseQuant (a : Rx) (s : Str) : Option RxParse :=
     match r.drop lo.length with
     | '}' :: x => if lo.isEmpty then none else
         let n := parseDigits (lo.map digitVal)
+        -- (counts beyond 50 are outside the model, as for `{m,n}`: CPython refuses 2^32 - 1 and more with OverflowError)
+        if n > 50 then none else
         (lazy x).map (fun y => ⟨.rep a n (some n), y⟩)
     | ',' :: x =>
       let hi := x.takeWhile isAsciiDigit
